@@ -1,8 +1,10 @@
 import GceTcb.Base.Line
-import GceTcb.Model.Manifest
-/- Driver handler for stream `c13` (manifest merge and endorse histories). -/
+import GceTcb.Model.ManifestFS
+/- Driver handler for stream `c13` (manifest merge, Go's path.Clean / path.Join, endorse histories over
+   full paths with arbitrary names). Names in protocol lines are free of ' ', ':', ';', '=' (the
+   harness generates them so); everything else, including '/', '.', unicode and the empty text, passes. -/
 namespace GceTcb.Drive.C13
-open GceTcb GceTcb.Manifest
+open GceTcb GceTcb.Manifest GceTcb.Paths
 
 def parseEntry (s : String) : Option Entry :=
   match s.splitOn ":" with
@@ -20,6 +22,17 @@ def parseRun (s : String) : Option Run :=
   | [c, d, t, o] => some ⟨c, d, t, o == "1", false⟩
   | [c, d, t, o, sn] => some ⟨c, d, t, o == "1", sn == "1"⟩
   | _ => none
+
+/-- `cand:digest:time:ow:snapDir:imageName:svsm:scrtm` -/
+def parseRunP (s : String) : Option RunP :=
+  match s.splitOn ":" with
+  | [c, d, t, o, sd, im, sv, sc] => some ⟨c, d, t, o == "1", sd, im, sv == "1", sc == "1"⟩
+  | _ => none
+
+def showContent : Content → String
+  | .endorsement d => "E:" ++ d
+  | .manifest _ => "M"
+  | .blob => "B"
 
 def insertSorted (x : String) : List String → List String
   | [] => [x]
@@ -41,6 +54,23 @@ def handle (f : Fields) : String :=
     let (s, oks) := runs.foldl step (Store.empty, [])
     let files := sortStrings (s.files.map fun p => s!"{p.1}:{p.2}")
     s!"ok={",".intercalate oks} manifest={showEntries s.manifest} files={",".intercalate files}"
+  | "clean" => pclean (f.get "p")
+  | "join" =>
+    let n := f.nat "n"
+    pjoin ((List.range n).map fun i => f.get s!"e{i}")
+  | "histp" =>
+    let d : Dirs := ⟨if f.get "mode" == "concat" then .concat else .join, f.get "root", f.get "out"⟩
+    let runs := ((f.get "runs").splitOn ";").filterMap parseRunP
+    let step := fun (acc : FS × List String) (r : RunP) =>
+      let res := endorseRunP d acc.1 r
+      (res.1, acc.2 ++ [if res.2 then "1" else "0"])
+    let (fs, oks) := runs.foldl step (([] : FS), [])
+    let mp := fullOut d manifestFile
+    let man := match readM fs mp with
+      | some m => showEntries m
+      | none => "garbage"
+    let files := sortStrings ((fs.filter fun p => !(p.1 == mp && (readM fs mp).isSome)).map fun p => s!"{p.1}:{showContent p.2}")
+    s!"ok={",".intercalate oks} manifest={man} files={",".intercalate files}"
   | _ => "bad-op"
 
 end GceTcb.Drive.C13
